@@ -150,22 +150,14 @@ def gen_case(rng, big=False, kind=None):
             init = [int(x) for x in rng.integers(0, n, size=k0)]        # may repeat
         else:
             init = []
-    elif n == 0 and r < 0.3 and m > 0:
-        init = [int(rng.integers(0, m))]
-    # radii that occur, to place the cutoff on / between them
+    # radii that occur along the farthest-first sequence, to place the cutoff on / between them
     cold_run = []
     if n > 0:
-        cur = [None] * n
-        cs = list(init) if init else []
-        rs = radii_of(table, n, cs)
-        cur_r = rs[-1]
-        seq = list(cs)
-        for _ in range(n + 2):
-            curd = [min([table[f][c] for c in seq]) if seq else None for f in range(n)]
-            if seq and max(curd) is not None:
-                cold_run.append(max(curd))
-            nxt = 0 if not seq else int(np.argmax(curd))
-            seq.append(nxt)
+        seq = list(init) if init else [0]
+        for _ in range(n + 1):
+            curd = [min(table[f][c] for c in seq) for f in range(n)]
+            cold_run.append(max(curd))
+            seq.append(int(np.argmax(curd)))
     r = rng.random()
     if r < 0.25:
         cutoff = OMIT
@@ -199,7 +191,9 @@ def gen_kernel_case(rng):
     """euclidean / manhattan kernels on small-integer points"""
     n = int(rng.integers(1, 10))
     d = int(rng.integers(1, 4))
-    pts = rng.integers(0, 4, size=(n, d))
+    side = 10 if d == 1 else 4
+    cells = list(itertools.product(range(side), repeat=d))
+    pts = np.array([cells[i] for i in rng.permutation(len(cells))[:n]]).reshape(n, d)   # distinct points
     dtype = ['float64', 'float32', 'int32', 'int64'][int(rng.integers(0, 4))]
     metric = ['euclidean', 'manhattan'][int(rng.integers(0, 2))]
     r = rng.random()
@@ -231,7 +225,7 @@ def real_run(case, tri=None, via=None):
     tri = case['tri'] if tri is None else tri
     via = via or case.get('via', 'function')
     if case['metric'] == 'table':
-        T = np.array(case['table'], dtype=float).reshape(n, -1)
+        T = np.array(case['table'], dtype=float).reshape(n, -1) if n else np.zeros((0, 0))
         X = np.arange(n, dtype=float).reshape(n, 1)
         limit = [0, 6 * (n + len(case['init'] or [])) + 60]
 
